@@ -196,6 +196,15 @@ r_buf_rpos_calc_size(r_buf_p r_buf, r_buf_rpos_p rpos1, r_buf_rpos_p rpos2) {
 }
 
 
+/* Index of the block that writer will commit next: the current one while it
+ * is still empty (after r_buf_wbuf_get() / r_buf_wbuf_set2()), else next. */
+static inline size_t
+r_buf_wr_next_index(r_buf_p r_buf) {
+
+	return (r_buf->iov_index +
+	    ((0 != r_buf->iov[r_buf->iov_index].iov_len) ? 1 : 0));
+}
+
 int
 r_buf_rpos_init(r_buf_p r_buf, r_buf_rpos_p rpos, size_t data_size) {
 
@@ -203,7 +212,7 @@ r_buf_rpos_init(r_buf_p r_buf, r_buf_rpos_p rpos, size_t data_size) {
 		return (EINVAL);
 
 	rpos->iov_off = 0;
-	rpos->iov_index = (r_buf->iov_index + 1);
+	rpos->iov_index = r_buf_wr_next_index(r_buf);
 	rpos->round_num = r_buf->round_num;
 	
 	while (rpos->iov_index > 0 &&
@@ -283,15 +292,6 @@ r_buf_rpos_check_fast(r_buf_p r_buf, r_buf_rpos_p rpos) {
 	}
 	/* Some data lost for this receiver. */
 	return (0);
-}
-
-/* Index of the block that writer will commit next: the current one while it
- * is still empty (after r_buf_wbuf_get() / r_buf_wbuf_set2()), else next. */
-static inline size_t
-r_buf_wr_next_index(r_buf_p r_buf) {
-
-	return (r_buf->iov_index +
-	    ((0 != r_buf->iov[r_buf->iov_index].iov_len) ? 1 : 0));
 }
 
 static int
